@@ -326,6 +326,9 @@ iwrc iwu_replace(
     iwxstr_clear(bbuf);
     const char *key = keys[i];
     size_t klen = strlen(key);
+    if (klen == 0) { // strstr() finds an empty key at ptr itself and ptr would never advance
+      continue;
+    }
     while (true) {
       const char *p = strstr(ptr, key);
       if (!p) {
